@@ -108,7 +108,7 @@ def apply_rules(commandLineArguments, oConfig, tIndexFileName):
         configure_rules(oConfig, oRules, configuration, iIndex, sFileName)
     except ConfigurationError as e:
         fExitStatus = True
-        testCase = None
+        testCase = create_junit_testcase(sFileName, e)
         dJsonEntry["file_path"] = sFileName
         dJsonEntry["violations"] = []
         sOutputStd = ""
